@@ -123,6 +123,7 @@ Array<String> TextFile::lines()
 		if (!readLine(lines.last()) && error()) // a read error does not set the end-of-file indicator
 			break;
 	}
+	close(); // opened here: leave the object as it was, so that it can still open itself for writing
 	return lines;
 }
 
@@ -161,6 +162,7 @@ String TextFile::text()
 			}
 			a << 0;
 			text = a.data();
+			close();
 			return text;
 		}
 		else if (head[0] == 0xfe && head[1] == 0xff) // UTF16BE
@@ -180,6 +182,7 @@ String TextFile::text()
 			}
 			a << 0;
 			text = a.data();
+			close();
 			return text;
 		}
 		else if (head[0] == 0xef && head[1] == 0xbb && n>=3 && read(head + 2, 1) == 1 && head[2] == 0xbf) // UTF8
@@ -194,6 +197,7 @@ String TextFile::text()
 	n = read(&text[0], n);
 	text[n]='\0';
 	text.fix(n);
+	close(); // opened here: leave the object as it was, so that it can still open itself for writing
 	return text;
 }
 
